@@ -60,6 +60,7 @@ func runC04(c *Ctx, r *Report) {
 	} else {
 		maxLen := int64(-1)
 		var at token.Pos
+		var tested ssa.Value
 		pc := pathConds(pt)
 		eachInstr(pt, func(in ssa.Instruction) {
 			b, ok := in.(*ssa.BinOp)
@@ -74,6 +75,7 @@ func runC04(c *Ctx, r *Report) {
 			if !ok || calleeName(call.Common()) != "builtin.len" || !isCritSlice(call.Call.Args[0].Type()) {
 				return
 			}
+			tested = call.Call.Args[0]
 			// the comparison must guard an error return: the block reached on its true edge returns a non-nil error
 			switch op {
 			case token.GTR:
@@ -111,6 +113,25 @@ func runC04(c *Ctx, r *Report) {
 					})
 					if !holds {
 						okRet = false
+					}
+					// ... and what is returned is the list that was measured, not a longer one built from it
+					if res := retResult(ret, 0); tested != nil && res != tested {
+						same := false
+						if p, ok := res.(*ssa.Phi); ok {
+							for _, e := range p.Edges {
+								if e == tested {
+									same = true
+								}
+							}
+						}
+						if p, ok := tested.(*ssa.Phi); ok {
+							for _, e := range p.Edges {
+								if e == res {
+									same = true
+								}
+							}
+						}
+						r.check(same, relName(pt)+":returned list is the measured list", ret.Pos(), pt, "the list whose length was tested is returned as is", "the returned list is built after the length test (e.g. by appending): it can be longer than the key has slots")
 					}
 				}
 			}
